@@ -82,7 +82,9 @@ func postprocessItem(item *models.Item) []*models.Item {
 		logger.Debug("HTML got extracted as asset, skipping", "item_id", item.GetShortID())
 		item.SetStatus(models.ItemCompleted)
 		return outlinks
-	} else if config.Get().DisableAssetsCapture && !domainscrawl.Enabled() {
+	} else if config.Get().DisableAssetsCapture && !domainscrawl.Enabled() && !shouldExtractOutlinks(item) {
+		// Nothing to extract: no assets wanted, and the hop limit (or a missing body) rules out outlinks.
+		// With --disable-assets-capture and hops left, outlinks still have to be extracted below.
 		logger.Debug("assets capture and domains crawl are disabled", "item_id", item.GetShortID())
 		item.SetStatus(models.ItemCompleted)
 		return outlinks
